@@ -235,9 +235,12 @@ theorem c02_coordinates {c : Cfg} (hs : SeqHyp c) {s : St} {tr : List Ev}
   have hi := inv_run hs h
   obtain ⟨h0, hl⟩ := hi.i5.coords _ (Or.inr hr) off ts tt rfl
   refine ⟨h0, hl, ?_⟩
-  obtain ⟨r, hra, ats, he⟩ := hi.i8.logSub _ (List.mem_of_getElem? hl)
-  simp only [storeRec, LogRec.mk.injEq] at he
-  exact ⟨r, hra, he.1.symm, ats, he.2.1, he.2.2⟩
+  have hk : tt ≤ 1 := hi.i10 _ (Or.inr hr) off ts tt rfl
+  rcases hi.i8.logSub _ (List.mem_of_getElem? hl) with hm | ⟨r, hra, ats, he⟩
+  · simp only [markerRec, LogRec.mk.injEq] at hm
+    omega
+  · simp only [storeRec, LogRec.mk.injEq] at he
+    exact ⟨r, hra, he.1.symm, ats, he.2.1, he.2.2⟩
 
 /-- an accepted record is determined by its id: the `r` above is the record the caller sent -/
 theorem accepted_ids_unique {c : Cfg} (hs : SeqHyp c) {s : St} {tr : List Ev}
